@@ -48,6 +48,16 @@ static bool check_perm(const uint64_t A[12], const uint64_t B[12], Ctx &ctx)
     { E cap[4]; PoseidonGoldilocks::hash_seq(cap, (const E(&)[12])in); if (!cmp("hash_seq", cap, wa, 4)) return false;
       PoseidonGoldilocks::hash(cap, (const E(&)[12])in); if (!cmp("hash (AVX2)", cap, wa, 4)) return false; }
     for (int i = 0; i < 12; i++) if (in[i].fe != A[i]) { ctx.why = "input modified"; return false; }
+    // hash chain: an in-place permutation followed by permutations whose input is exactly that result (sponges and Merkle paths chain
+    // permutations like this; the k-th link must be perm^k(A) no matter what was computed before)
+    { uint64_t w2[12], w3[12]; refp::perm(w2, wa); refp::perm(w3, w2);
+      E st[12], o2[12]; memcpy(st, in, sizeof st);
+      PoseidonGoldilocks::hash_full_result(st, st); PoseidonGoldilocks::hash_full_result(o2, st);
+      if (!cmp("hash_full_result (AVX2) chained: second link (out of place, input = result of an in-place call)", o2, w2, 12)) return false;
+      PoseidonGoldilocks::hash_full_result(st, st); if (!cmp("hash_full_result (AVX2) chained in place: second link", st, w2, 12)) return false;
+      { E cap[4]; PoseidonGoldilocks::hash(cap, (const E(&)[12])st); if (!cmp("hash (AVX2) of the chained state", cap, w3, 4)) return false; }
+      memcpy(st, in, sizeof st); PoseidonGoldilocks::hash_full_result_seq(st, st); PoseidonGoldilocks::hash_full_result_seq(o2, st);
+      if (!cmp("hash_full_result_seq chained: second link", o2, w2, 12)) return false; }
 #ifdef __AVX512__
     E in2[24], out2[24];
     for (int j = 0; j < 3; j++) for (int i = 0; i < 4; i++) { in2[8 * j + i].fe = A[4 * j + i]; in2[8 * j + 4 + i].fe = B[4 * j + i]; }
@@ -56,6 +66,11 @@ static bool check_perm(const uint64_t A[12], const uint64_t B[12], Ctx &ctx)
     for (int j = 0; j < 3; j++) for (int i = 0; i < 4; i++) { oa[4 * j + i] = out2[8 * j + i]; ob[4 * j + i] = out2[8 * j + 4 + i]; }
     if (!cmp("hash_full_result_avx512 (state A)", oa, wa, 12)) return false;
     if (!cmp("hash_full_result_avx512 (state B)", ob, wb, 12)) return false;
+    { uint64_t wa2[12], wb2[12]; refp::perm(wa2, wa); refp::perm(wb2, wb);
+      E st2[24], o3[24]; memcpy(st2, in2, sizeof st2);
+      PoseidonGoldilocks::hash_full_result_avx512(st2, st2); PoseidonGoldilocks::hash_full_result_avx512(o3, st2);
+      E ca[12], cb[12]; for (int j = 0; j < 3; j++) for (int i = 0; i < 4; i++) { ca[4 * j + i] = o3[8 * j + i]; cb[4 * j + i] = o3[8 * j + 4 + i]; }
+      if (!cmp("hash_full_result_avx512 chained: second link (state A)", ca, wa2, 12) || !cmp("hash_full_result_avx512 chained: second link (state B)", cb, wb2, 12)) return false; }
     E cap2[8]; PoseidonGoldilocks::hash_avx512(cap2, (const E(&)[24])in2);
     if (!cmp("hash_avx512 (A)", cap2, wa, 4) || !cmp("hash_avx512 (B)", cap2 + 4, wb, 4)) return false;
 #else
